@@ -5,7 +5,7 @@
 
     * against the specification (`specAnswer`: ids of the live documents whose metadata
       satisfies the filter expression under ordinary comparison)      → SPECFAIL,
-    * against the faithful model (error class and id set)             → DIFF,
+    * against the faithful model (answer vs error, and the id set)    → DIFF,
 
   KNOWN <id> is replied only when the implementation's answer differs from the
   specification, the faithful model predicts the implementation's answer exactly, and
@@ -13,7 +13,7 @@
   finding (D9: `Not(range)`; D8: operand and a stored value of the field differ in sign).
 
   Protocol (strings are hex of their UTF-8 bytes behind a one-letter tag):
-    op add <id> <kvs> => ok | err                   kvs: h<field>=i<int>|s<str>|x , … | -
+    op add <id> <kvs> => ok | err [<class>]         kvs: h<field>=i<int>|s<str>|x , … | -
     op remove <id> => ok
     op search S <leaf>* (G:<AND|OR|NONE> <leaf>*)* => ok <ids> | err [g<i>:]<class>
         leaf: [!]<op>;h<field>;<operands>;<operator string the implementation received>
@@ -201,9 +201,11 @@ def search (st : St) (q : PQuery) (post : List String) : String :=
   | ["err", e] =>
     match model with
     | .error me =>
-      if errClass me != e then s!"DIFF search-err model={errClass me} impl={e}"
-      else if inside then s!"SPECFAIL well-typed-query-errs {e}"
-      else s!"ok err outside=1 {flags}"
+      -- both fail.  Which operator error is reported, for which OR-group (`g<i>:`) and in which
+      -- words is not part of the property — it only separates "an answer" from "an error"
+      -- (Proto.sameOutcome); the classes are kept as information
+      if inside then s!"SPECFAIL well-typed-query-errs {e}"
+      else s!"ok err outside=1 {classFlag e} sameclass={b2s (errClass me == e)} {flags}"
     | .ok r => s!"DIFF search model=ok:{showIds r} impl=err:{e}"
   | ["ok", ids] =>
     match parseIds ids with
@@ -298,10 +300,11 @@ def op (st : St) (toks : List String) : St × String :=
         let st' : St := { s := s', sp := st.sp.step (.add id kvs), tainted := st.tainted || readd || dupKeys }
         if err then (st', "DIFF add model=err impl=ok")
         else (st', s!"ok add fields:{kvs.length} readd={b2s readd}")
-      | ["err"] =>
+      | "err" :: cls =>
+        -- any error is a rejection (the optional class token is informational)
         let (s', err) := add st.s id kvs
         let st' : St := { st with s := s', sp := st.sp.step (.add id kvs) }
-        if err then (st', "ok add err") else (st', "DIFF add model=ok impl=err")
+        if err then (st', s!"ok add err {classFlag (cls.headD "unclassified")}") else (st', "DIFF add model=ok impl=err")
       | _ => (st, "BADOP add outcome")
     | _, _ => (st, "BADOP add")
   | ["remove", id] =>
